@@ -58,6 +58,7 @@ Section ExecSim.
   Variable U : row -> Prop.
   Variable Pre : list row -> Prop.
   Variable R : S1 -> S2 -> Prop.
+  Hypothesis PreNil : Pre [].
   Hypothesis PreU : forall rows, Pre rows -> Forall U rows.
   Hypothesis Hb : forall rows, Pre rows -> R (b1 rows) (b2 rows).
   Hypothesis Hi : forall s1 s2 r, R s1 s2 -> U r ->
@@ -204,7 +205,8 @@ Section ExecSim.
       destruct (upd_loop u1 sch a (b1 rows) _ 0 0) as [[[x m1] k1]|], (upd_loop u2 sch a (b2 rows) _ 0 0) as [[[y m2] k2]|];
         try contradiction; [|split; [reflexivity|exact HP]].
       destruct H as [H [-> ->]]. destruct (Hc _ _ H) as [E HP']. rewrite E. split; [reflexivity|exact HP'].
-    - pose proof (sim_delete (targets sch w ord lim rows) _ _ HR0 (targets_U w ord lim rows HUr)) as H.
+    - destruct (is_truncate w ord lim); [split; [reflexivity|exact PreNil]|].
+      pose proof (sim_delete (targets sch w ord lim rows) _ _ HR0 (targets_U w ord lim rows HUr)) as H.
       destruct (Hc _ _ H) as [E HP']. rewrite E. split; [reflexivity|exact HP'].
   Qed.
 End ExecSim.
